@@ -54,6 +54,22 @@ CLAIMED['C05'] = dict(
          '(harness/clash.py) is cross-checked against the proved-sound detector.',
     technique='Lean 4 proof (rejection theorem over the constructor model, sound executable clash detector) + clash-injection correspondence at 5 entry points')
 
+CLAIMED['C17'] = dict(
+    text='Lean 4 theorems over the model of hpl.types tokens and of type_check_references: checkRefs succeeds iff every accessor node of the '
+         'tree, at any position (index expressions, range bounds, set members, call arguments, quantifiers), resolves by pure navigation of '
+         'the declared field tree, meets its declared type and keeps literal indices of fixed-length arrays in bounds (checkRefs_ok_iff, by '
+         'mutual induction; resolveAcc_ok_iff for accessor chains); lifted to predicates, events, disjunctions and properties with the alias -> '
+         'message type map (refsCheckProperty_ok_iff); failures are type / index / sanity errors (checkRefs_err); leaf_fields lists exactly the '
+         'non-message leaves of the declared tree (mem_leafFields_iff), contains_name / get_type_of agree with field-or-constant lookup; the '
+         'predefined integer tokens carry the two\'s-complement bounds (G6_int_tokens, decide on the table regenerated from hpl.types); the '
+         'RangedType / ArrayType validators accept exactly the well-formed declarations. The implementation is compared with the model, with an '
+         'independent Python oracle of RefsOK on its own ASTs, and with the construction (valid / invalid in exactly one way).',
+    design_ref='DESIGN.md §6 C17',
+    note='Trusted: Lean kernel and standard axioms; extract_tables.py (G6); schema generator and token/AST dumpers; the model of the accessor '
+         'walk is hand-written and tied by the correspondence stream; EnumeratedType and TypeToken.type validators are checked by '
+         'construction only (no model); a Python bool offered as NUMBER enumeration value is not judged.',
+    technique='Lean 4 proof (exactness iff by mutual induction, leaf-listing characterisation, table obligations) + schema/property correspondence with single-defect mutants')
+
 CLAIMED['C02'] = dict(
     text='Lean 4 theorems: sanityCheck (the model of HplProperty.sanity_check, threading the tuple of available aliases exactly as the four '
          '_check_* helpers do) accepts exactly the WellScoped scope/pattern pairs (declarative judgement over free references and aliases per '
